@@ -18,8 +18,8 @@
    not proved. *)
 From Coq Require Import List NArith ZArith Bool Permutation.
 Import ListNotations.
-Require Import Verif.Lib.Wire Verif.Lib.C04Sort Verif.Gen.Facts_C08 Verif.Model.C04 Verif.Model.C08.
-Require Import Verif.Proofs.C08 Verif.Proofs.C08_tbl Verif.Proofs.C08_commit.
+Require Import Verif.Lib.Wire Verif.Lib.C04Sort Verif.Model.C08_base Verif.Gen.Facts_C08 Verif.Model.C04 Verif.Model.C08.
+Require Import Verif.Proofs.C08 Verif.Proofs.C08_tbl Verif.Proofs.C08_commit Verif.Proofs.C08_gen.
 
 (* the scheduling theorem: any two orderings of one statement set that keep the order inside every ordered
    container end in the same store, whatever the size of the program *)
@@ -81,6 +81,50 @@ Theorem C08_table_discipline : forall (l : list (row * stmt)),
   (forall p, In p l -> In (fst p) rows /\ conforms (fst p) (snd p) = true) -> H2 (map snd l).
 Proof. exact table_programs_H2. Qed.
 Print Assumptions C08_table_discipline.
+
+(* the emission functions REGENERATED from config/*.py on this run (which actions each directive declares: site,
+   discriminator head, order=, Deferred flag, callable flag, sequence) equal the hand-written reference model, for all
+   39 translated directive methods and every valuation of the argument atoms *)
+Theorem C08_generated_directives_are_model :
+  Forall2 (fun g m => forall v a, g v a = m v a) generated_directives model_directives.
+Proof. exact generated_directives_are_model. Qed.
+Print Assumptions C08_generated_directives_are_model.
+
+(* the regenerated emission functions and the regenerated site table agree on every order= value and Deferred flag,
+   and cover each other *)
+Theorem C08_generated_calls_are_the_table :
+  forallb call_in_table all_generated_calls = true /\
+  forallb (fun s => existsb (fun c => text_eqb (k_site c) (fst (fst s))) all_generated_calls) sites = true.
+Proof. exact generated_calls_are_the_table. Qed.
+Print Assumptions C08_generated_calls_are_the_table.
+
+(* phase discipline H2 for every program whose statements are calls of the REGENERATED directives (phase = the call's
+   order=, reads and writes inside the declared row of the call's site) *)
+Theorem C08_generated_programs_H2 : forall (l : list (call * stmt)),
+  (forall p, In p l -> In (fst p) all_generated_calls /\
+                       exists r, row_named (k_site (fst p)) = Some r /\ conforms_call (fst p) r (snd p) = true) ->
+  H2 (map snd l).
+Proof. exact generated_programs_H2. Qed.
+Print Assumptions C08_generated_programs_H2.
+
+(* the registration path regenerated from config/actions.py (Configurator.action with its autocommit and
+   introspection branches, ActionState.action, Configurator.commit) equals the reference model *)
+Theorem C08_generated_registration_path_is_model :
+  (forall w d cb o intrs, gen_cfg_action w d cb o intrs = model_cfg_action w d cb o intrs) /\
+  (forall w d cb o p info intrs, gen_state_action w d cb o p info intrs = model_state_action w d cb o p info intrs) /\
+  (forall w, gen_commit w = model_commit w).
+Proof. exact (conj generated_cfg_action_is_model (conj generated_state_action_is_model generated_commit_is_model)). Qed.
+Print Assumptions C08_generated_registration_path_is_model.
+
+(* ... hence, for the GENERATED Configurator.action: outside autocommit the request is queued once with the
+   configurator's include chain and the order= given, and nothing runs before commit *)
+Theorem C08_generated_action_queues : forall w d cb o intrs,
+  w_autocommit w = false ->
+  w_pending (gen_cfg_action w d cb o intrs) =
+    w_pending w ++ [mkQ d cb o (w_includepath w) (w_info w) (if w_introspection w then intrs else [])] /\
+  w_log (gen_cfg_action w d cb o intrs) = w_log w.
+Proof. exact generated_action_queues. Qed.
+Print Assumptions C08_generated_action_queues.
 
 (* the phases of the directives the property names, read from the regenerated table *)
 Theorem C08_directive_phases :
